@@ -15,8 +15,8 @@ LENIENT = [
 
 def _configs(thorough):
     if thorough:
-        return {'c11_tree': rc.consts(maps=4, handles=2, depth=3, ops='Ops_Tree'),
-                'c11_h3': rc.consts(maps=3, handles=3, depth=2, ops='Ops_Tree')}
+        return {'c11_tree': rc.consts(maps=3, handles=3, depth=2, ops='Ops_Tree'),
+                'c11_deep': rc.consts(maps=3, handles=2, depth=3, ops='Ops_Tree')}
     return {'c11_tree': rc.consts(maps=3, handles=2, depth=2, ops='Ops_Tree')}
 
 
@@ -35,6 +35,10 @@ def run(res):
         if res.violations:
             break
     join()
+    if thorough and not res.violations:
+        # (M) only: four maps (two implicit maps at once, deeper subtrees replaced); too large to dump
+        c, ov = rc.consts(maps=4, handles=2, depth=2, ops='Ops_Tree')
+        res.model_check('ResourcesMC', 'c11_four_maps', c, invariants=rc.INV_TREE, properties=rc.PROP_TREE, overrides=ov)
 
 
 def replay(res, path):
